@@ -147,14 +147,19 @@ def run(chk):
         if lift(ns) != lift(n_start):
             raise Violation("n_start", str(ns), "n_start")
         p = as_sym(p)
-        ok = is_sym(p, 'at_set', 3) and p.args[1] == ('slice', None, fz(n_start), None)
-        if ok:
-            base, _, val = p.args
-            from ._rar_common import nonzero_value
-            ok = isinstance(base, tuple) and base[0] == 'AT' and base[1] == ('n',) and all(lift(e).is_zero() for e in base[2]) \
-                and nonzero_value(val)
-        if not ok:
-            raise Violation("initial mask", str(p)[:200], "zeros(n) with exactly the first n_start entries set to a non-zero probability")
+        if not is_sym(p, 'at_set', 3):
+            raise Inconclusive(f"initial mask idiom outside the rule's vocabulary: {str(p)[:200]}")
+        base, idx, val = p.args
+        from ._rar_common import nonzero_value
+        want = "zeros(n) with exactly the first n_start entries set to a non-zero probability"
+        if not (isinstance(base, tuple) and base[0] == 'AT'):
+            raise Inconclusive(f"initial mask base outside the rule's vocabulary: {str(base)[:120]}")
+        if base[1] != ('n',) or not all(lift(e).is_zero() for e in base[2]):
+            raise Violation("initial mask", f"entries outside the written slice are {str(base)[:120]}", want)
+        if idx != ('slice', None, fz(n_start), None):
+            raise Violation("initial mask", f"entries {idx} are activated", want)
+        if not nonzero_value(val):
+            raise Violation("initial mask", f"the first n_start entries are set to {val}", want)
         if lift(since) != lift(K('update_every')) - 1:
             raise Violation("initial period counter", str(since), "update_every - 1 (first step at start_iter)")
         if lift(J) != 0:
@@ -219,7 +224,7 @@ def run_solve_trigger(chk):
         def go(validation=validation):
             calls = []
 
-            def trigger_stub(i, loss, params, data, *step_fns):
+            def trigger_stub(i, loss, params, data, *step_fns, **step_kw):
                 calls.append((i, data))
                 return loss, params, GenToken(f"rar({data._name})", data._make_batch, data._step, data._attrs)
 
